@@ -12,7 +12,7 @@
    functions that recurse over the type graph (sub_unify, check_constraints, the operator checks, copy),
    `afix G (S f) = astep G (afix G f)` for the traversal of the syntax. *)
 From Coq Require Import String List NArith ZArith PArith Bool FMapPositive.
-From Sylt Require Import Syntax.Resolved Types.TyGraph.
+From Sylt Require Import Syntax.Resolved Types.TyGraph Types.DeclOrder.
 Import ListNotations.
 Local Open Scope positive_scope.
 Local Open Scope tc_scope.
@@ -1042,11 +1042,12 @@ Section WithVars.
   Definition is_type_decl (s : stmt) : bool :=
     match s with SBlob _ _ _ _ _ _ | SEnum _ _ _ _ _ => true | _ => false end.
 
-  (* fn TypeChecker::solve (2153).  Since 3c0758d the type declarations are gone through once before everything else
-     (a blob or enum may mention a type declared further down: the first time the mention of a type that has not been
-     seen copies a still-unknown type), and again, in place, with all the statements. *)
+  (* fn TypeChecker::solve (2166).  The type declarations are gone through before everything else (3c0758d: a blob or
+     enum may mention a type declared further down; the first time the mention of a type that has not been seen copies a
+     still-unknown type), each after the declarations it mentions (58eff66: dependency::type_declaration_order,
+     Types/DeclOrder.v), and again, in place, with all the statements. *)
   Definition solve (R : arec) (stmts : list stmt) (start_var : option var) : M unit :=
-    iterM (fun s => outer_statement R s ctx_new) (filter is_type_decl stmts) ;;;
+    iterM (fun s => outer_statement R s ctx_new) (type_decl_order stmts) ;;;
     iterM (fun s => outer_statement R s ctx_new) stmts ;;;
     match start_var with
     | Some v =>
